@@ -1073,7 +1073,7 @@ class NestGen:
         self.funcs = []          # FDef, callees before callers
         self.top = None          # source of the functions
         self.avoided = {}
-        self.fail_site = None    # where the run-time error of an "error" program is placed
+        self.alias_base = rng.randint(-1000, 1000)
 
     # -- pieces
     def text(self, n=5, allow=""):
@@ -1106,6 +1106,10 @@ class NestGen:
         for ty, name in f.params:
             if ty == "long":
                 c = self.pick_call(sc, "I", depth - 1, in_lit) if rng.random() < 0.12 else None
+                if c is None and rng.random() < 0.2:
+                    # the same function is called again with a value that differs only above bit 32 / bit 31 (anything that
+                    # remembers or passes a truncated value between evaluations of the same literal shows up)
+                    c = ("ilit", self.alias_base + rng.choice([0, 2 ** 32, -2 ** 32, 2 ** 33, 2 ** 31, 2 ** 48, -2 ** 62]))
                 args.append(c or rng.choice(sc["ints"] + sc["smalls"]))
             elif ty == "int" and name == "d":
                 args.append(("ilit", rng.randint(0, 3)))       # recursion depth of r(d, n)
